@@ -504,6 +504,61 @@ def k5_instance(ctx, rng, with_constraints, do_scale, opt_sets):
     return inst, best, first
 
 
+def hub_instance(rng):
+    """a hub x entered from p sources and left to q sinks, with a cycle of length L through x (beyond the brute-force size):
+    the planted walks (each: source -> x -> m rounds of the cycle -> sink, integer weight >= 1) bound the minimum from above"""
+    p, q = rng.randint(1, 3), rng.randint(1, 3)
+    L = rng.randint(1, 5)
+    if rng.random() < 0.3:            # a long cycle through a balanced hub: the closed sequence is the heaviest safe one
+        p = q = 2
+        L = rng.choice([4, 5, 6])
+    cyc = ["x"] + [f"c{i}" for i in range(1, L)] + ["x"]
+    nodes = ["x"] + [f"c{i}" for i in range(1, L)] + [f"s{i}" for i in range(p)] + [f"t{j}" for j in range(q)]
+    fl = {}
+    planted = []
+    k = max(p, q)
+    for i in range(k):
+        w, m = rng.choice([1, 1, 2, 3]), rng.choice([0, 1, 1, 2])
+        if i == 0:
+            m = max(m, 1)
+        walk = [f"s{i % p}"] + cyc[:-1] * m + ["x", f"t{i % q}"] if m else [f"s{i % p}", "x", f"t{i % q}"]
+        for e in zip(walk[:-1], walk[1:]):
+            if e[0] != e[1] or L == 1:
+                fl[e] = fl.get(e, 0) + w
+        planted.append((w, walk))
+    fl = {e: v for e, v in fl.items() if e[0] != e[1] or L == 1}
+    edges = list(fl)
+    rng.shuffle(edges); rng.shuffle(nodes)
+    return {"nodes": nodes, "edges": [list(e) for e in edges], "flow": [[u, v, str(fl[(u, v)])] for u, v in edges],
+            "constraints": [], "coverage": "1", "tags": ["hub", f"cycle_len={L}"]}, planted
+
+
+def planted_bound_case(ctx, rng, suite="K5.planted_upper_bound"):
+    """larger instances: no brute force; the planted decomposition (integer weights >= 1, within the caps) must be matched"""
+    inst, planted = hub_instance(rng)
+    k = len(planted)
+    # (not the min-gen-set lower bound: its over-estimate on cyclic input is a listed finding judged by the brute-force suites)
+    for label, opts in [OPTION_SETS[0], rng.choice([OPTION_SETS[1], OPTION_SETS[3], OPTION_SETS[4]])]:
+        res = run_model(ctx, inst, opts)
+        ctx.rep.cov["oracle_evaluations"] += 1
+        ctx.rep.count(suite, [inst, label], nontrivial=True, hist=[label] + inst["tags"] + ["solved" if res["solved"] else "unsolved"])
+        case = dict(inst, options=opts, option_set=label, planted=[[w, walk] for w, walk in planted],
+                    result={a: res[a] for a in ("solved", "n", "walks", "weights", "lb", "exc")})
+        site = "MinFlowDecompCycles.solve"
+        if res["exc"]:
+            ctx.violation(f"MinFlowDecompCycles [{label}] raised {res['exc']} on a decomposable flow", case, site=site)
+        elif not res["solved"]:
+            ctx.violation(f"MinFlowDecompCycles [{label}] did not solve a flow that {k} planted walks decompose", case, site=site)
+        else:
+            pr = explain_problems(inst, res)
+            if pr:
+                ctx.violation(f"MinFlowDecompCycles [{label}] returned a wrong decomposition: {pr[0]}", case,
+                              site="MinFlowDecompCycles.get_solution")
+            elif res["n"] > k:
+                ctx.violation(f"MinFlowDecompCycles [{label}] returned {res['n']} walks although {k} planted walks decompose the flow",
+                              case, site=site)
+
+
 def k3_traces(ctx, rng, n):
     fp = ctx.fp
     for it in range(n):
@@ -548,6 +603,8 @@ def run(ctx):
             ctx.rep.sample({"suite": "K5.min_walks", "instance": inst, "oracle_min": best[0] if best else None,
                             "oracle_decomposition": [[w, list(m)] for w, m in best[1]] if best else None,
                             "returned": {"walks": res["walks"], "weights": res["weights"]}})
+    for it in range(ctx.n(25, 250)):
+        planted_bound_case(ctx, rng)
     for it in range(ctx.n(60, 500)):
         sets = [OPTION_SETS[0], rng.choice(OPTION_SETS[1:])]
         k5_instance(ctx, rng, True, do_scale=False, opt_sets=sets)
